@@ -97,17 +97,31 @@ def main(argv=None):
         for i in range(nsh):
             out = os.path.join(tmpd, "s%d.json" % i)
             cmd = [sys.executable, "-m", "vf.run", pid, "--tier", a.tier, "--seed", str(a.seed), "--shard", "%d/%d" % (i, nsh), "--out", out]
-            procs.append((i, out, subprocess.Popen(cmd, stdout=subprocess.PIPE, stderr=subprocess.STDOUT)))
-        for i, out, p in procs:
+            # shard output goes to a file, not a pipe: a shard that prints more than the pipe buffer
+            # (tracebacks of deliberately provoked failures) would block until its turn to be read
+            logf = open(out + ".log", "wb")
+            procs.append((i, out, subprocess.Popen(cmd, stdout=logf, stderr=subprocess.STDOUT), logf))
+        for i, out, p, logf in procs:
+            timed_out = False
             try:
-                o, _ = p.communicate(timeout=max(1, watchdog - (time.time() - t0)))
+                p.wait(timeout=max(1, watchdog - (time.time() - t0)))
             except subprocess.TimeoutExpired:
                 p.kill()
-                p.communicate()
+                p.wait()
+                timed_out = True
+            logf.close()
+            try:
+                with open(out + ".log", "rb") as f:
+                    f.seek(max(0, os.path.getsize(out + ".log") - 800))
+                    o = f.read()
+                os.unlink(out + ".log")
+            except OSError:
+                o = b""
+            if timed_out:
                 ctx.inconclusive("watchdog: shard %d exceeded %ds" % (i, watchdog))
                 continue
             if p.returncode != 0 or not os.path.exists(out):
-                ctx.inconclusive("shard %d exited %s: %s" % (i, p.returncode, (o or b"")[-800:].decode("utf-8", "replace")))
+                ctx.inconclusive("shard %d exited %s: %s" % (i, p.returncode, (o or b"").decode("utf-8", "replace")))
                 continue
             with open(out) as f:
                 ctx.merge(json.load(f))
